@@ -2,6 +2,7 @@ package legs
 
 import (
 	"fmt"
+	"os"
 	"time"
 
 	"rvharness/internal/core"
@@ -118,6 +119,12 @@ func c05ProbeCheck(c *core.Ctx, cases []engCase) []core.Outcome {
 
 func init() {
 	core.Register("C05", func(c *core.Ctx) {
+		// C05_ONLY=Rw: run only the rewrite-decision leg (development aid)
+		if os.Getenv("C05_ONLY") == "Rw" {
+			c05RegisterRw(c)
+			c05RegisterRs(c)
+			return
+		}
 		g := &engGen{allowRTL: true, perPat: 8, maxLen: 10, biasRewrite: true}
 		core.RunLeg(c, core.Leg[engCase]{
 			Name: "R", Kind: "oracle(rewrites on/off)",
@@ -130,5 +137,7 @@ func init() {
 			Corpus: c05Probes, N: 0, Gen: nil, Check: c05ProbeCheck,
 		})
 		c05RegisterCert(c)
+		c05RegisterRw(c)
+		c05RegisterRs(c)
 	})
 }
